@@ -7,7 +7,9 @@ from .common import fr
 
 RULE = ("pairs of well-formed binomial opinions: 1/8 grid incl. vacuous / dogmatic / 0-1 base rates (exhaustive in the "
         "thorough tier), random 1/64 grid, nearly vacuous (1-u = 1e-3..1e-15) and nearly dogmatic (u = 1e-3..1e-12) "
-        "operands; uncertainties in (0, eps] excluded; each pair is run through the binomial operator and through the "
+        "operands, both operands on the lattice u = 1 or 1 - k ulps (k = 5..10, just outside the vacuity tolerance) with "
+        "different base rates, one object passed as both operands (binomial x.op(&x) and multinomial fuse(&w, &w)); uncertainties in "
+        "(0, eps] excluded; each pair is run through the binomial operator and through the "
         "multinomial operator on the converted operands (both compared with the model and with each other), plus the "
         "conversions themselves; f32/f64; non-trivial = neither operand vacuous")
 NONE_KINDS = ("NONE", "ERR", "PANIC")
@@ -51,15 +53,33 @@ def gen(rng, tier):
         for _ in range(200 if tier == "quick" else 10000):
             k = rng.choice(["vac", "dog"])
             pairs.append(("near_" + k, near(rng, ty, k), near(rng, ty, rng.choice([k, k, "vac", "dog"]))))
+        # both operands vacuous or as nearly so as the property admits: u = 1 or u = 1 - k ulps just outside the
+        # tolerance of the vacuity test (k <= 4 is vacuous by the crate's tolerance: there the two families
+        # deliberately differ and the property excludes it), different base rates
+        lat = [1.0] + [num.next_up(ty, 1.0, -k) for k in range(5, 11)]
+        for u1 in lat:
+            for u2 in lat:
+                if tier == "quick" and not (u1 == 1.0 or u2 == 1.0 or rng.chance(1, 3)):
+                    continue
+                sx, sy = G.simplex_with_u(rng, ty, 2, u1), G.simplex_with_u(rng, ty, 2, u2)
+                a1 = rng.below(9) / 8.0
+                a2 = rng.choice([a for a in range(9) if a / 8.0 != a1]) / 8.0
+                pairs.append(("vacuous_lattice", [sx[0][0], sx[0][1], sx[1], a1], [sy[0][0], sy[0][1], sy[1], a2]))
+        npairs = len(pairs)
+        for i in range(0, npairs, 7):
+            # one and the same object on both sides, through both APIs
+            pairs.append(("same_object", pairs[i][1], pairs[i][1]))
         for tag, x, y in pairs:
             gid += 1
+            same = tag == "same_object"
             for op, opk in BOPS.items():
                 g = [0.5] if op != "bcfuse" else []
                 m = {"g": gid, "op": op}
-                out.append(Case(op, ty, "bi", "-", [], x + y + g, tag=tag, meta=dict(m, side="bi")))
+                out.append(Case(op, ty, "bi", "alias" if same else "-", [], x + y + g, tag=tag, meta=dict(m, side="bi")))
                 cx, cy = conv(x), conv(y)
                 # the conversion 1 - a must be exact for the multinomial side to see the same operand
-                out.append(Case("fuse", ty, "arr", "own", [2, opk, 0], cx + cy, tag=tag, meta=dict(m, side="mul")))
+                out.append(Case("fuse", ty, "arr", "self" if same else "own", [2, opk, 1 if same else 0], cx + cy, tag=tag,
+                                meta=dict(m, side="mul")))
             if gid % 5 == 0:
                 out.append(Case("b2m", ty, "bi", "-", [], x, tag=tag))
                 out.append(Case("b2m2b", ty, "bi", "-", [], x, mop="-", tag=tag))
